@@ -268,6 +268,12 @@ class C17(Check):
                     case["attach_at"] = rng.randint(0, min(total, 5))
                 if rng.random() < 0.2:
                     case["manual_sub"] = 1
+                if "attach_at" not in case and rng.random() < 0.12:
+                    # the same JobShopGraph object is also handed to a second updater on a second dispatcher of the
+                    # instance; both dispatchers are reset before use (gymnasium's life cycle: reset() hands every
+                    # updater its own copy of the graph it was built on) and the OTHER one plays a whole episode first
+                    case["twin"] = 1
+                    self.note("graph_shared_with_a_second_updater_on_another_dispatcher")
                 if rng.random() < 0.55:
                     case["rm_m"] = case["rm_j"] = 1
                 else:
@@ -401,6 +407,15 @@ class C17(Check):
             if "attach_at" not in case and (dispatcher.subscribers[-1] is not updater
                                             or len(dispatcher.subscribers) < n_before + 1):
                 raise RuntimeError("the updater did not subscribe itself last")
+        if case.get("twin") and env is None and "attach_at" not in case:
+            d2 = Dispatcher(instance)
+            u2 = ResidualGraphUpdater(d2, g)
+            d2.reset()
+            dispatcher.reset()
+            while not d2.schedule.is_complete():
+                op2 = d2.raw_ready_operations()[0]
+                d2.dispatch(op2, op2.machines[0])
+            del u2
         graph = updater.job_shop_graph
         nodes = [enc_node(n) for n in graph.nodes]
         op_ids_ok = all(n.operation.operation_id == n.node_id for n in graph.nodes
@@ -612,6 +627,8 @@ class C17(Check):
             yield dict(case, attach_at=case["attach_at"] - 1)
         if case.get("manual_sub"):
             yield {k: v for k, v in case.items() if k != "manual_sub"}
+        if case.get("twin"):
+            yield {k: v for k, v in case.items() if k != "twin"}
         if case["pre"] and "env" not in case:
             yield dict(case, pre=case["pre"][:-1])
             yield dict(case, pre=case["pre"][1:])
